@@ -101,6 +101,7 @@ Proof.
   unfold helmholtz_far_field_single_layer, helmholtz_far_field_double_layer, cmul, cexp_mik, dot3; cbn [fst snd].
   unfold helmholtz_far_field_single_layer_re, helmholtz_far_field_single_layer_im,
          helmholtz_far_field_double_layer_re, helmholtz_far_field_double_layer_im, M_INV_4PI.
+  split_ifs.    (* a tree whose far-field kernels read p1 has [if Req_EM_T 0 0] here *)
   rewrite Rmult_0_l, exp_0.
   set (a := k * (x0 * y0 + x1 * y1 + x2 * y2)).
   set (b := k * (x0 * t0 + x1 * t1 + x2 * t2)).
@@ -137,3 +138,116 @@ Proof.
       assert (Q : 1 / (4 * PI) * 1 < exp 1 * (1 / (4 * PI))) by nra;
       nra ].
 Qed.
+
+(* the far-field double-layer kernel is the derivative of the far-field single-layer kernel along the trial normal
+   (re and im), any real p0 (and any p1, which the kernels do not read) *)
+Lemma far_field_dl_is_normal_derivative x0 x1 x2 y0 y1 y2 nx0 nx1 nx2 ny0 ny1 ny2 p0 p1 :
+  is_derive (fun t => helmholtz_far_field_single_layer_re x0 x1 x2 (y0 + t * ny0) (y1 + t * ny1) (y2 + t * ny2)
+                        nx0 nx1 nx2 ny0 ny1 ny2 p0 p1) 0
+            (helmholtz_far_field_double_layer_re x0 x1 x2 y0 y1 y2 nx0 nx1 nx2 ny0 ny1 ny2 p0 p1) /\
+  is_derive (fun t => helmholtz_far_field_single_layer_im x0 x1 x2 (y0 + t * ny0) (y1 + t * ny1) (y2 + t * ny2)
+                        nx0 nx1 nx2 ny0 ny1 ny2 p0 p1) 0
+            (helmholtz_far_field_double_layer_im x0 x1 x2 y0 y1 y2 nx0 nx1 nx2 ny0 ny1 ny2 p0 p1).
+Proof.
+  unfold helmholtz_far_field_single_layer_re, helmholtz_far_field_double_layer_re,
+         helmholtz_far_field_single_layer_im, helmholtz_far_field_double_layer_im, M_INV_4PI.
+  destruct (Req_EM_T p1 0) as [e|e]; [subst p1|];
+  (split; auto_derive; auto; rewrite ?Rmult_0_l, ?Rplus_0_r, ?Rplus_0_l;
+    unify_args cos; unify_args sin; unify_args exp; field; apply PI_neq0).
+Qed.
+
+(* far-field single layer as the limit of r exp(-ikr) K_sl(r xhat, y), real k: exact identity for sources on the ray,
+   y = s xhat with |xhat| = 1 and r > s:
+     r exp(-ikr) K_sl(r xhat, s xhat) = r/(r - s) * K_ff(xhat, s xhat)        (the factor r/(r-s) -> 1) *)
+Lemma far_field_on_axis x0 x1 x2 nx0 nx1 nx2 ny0 ny1 ny2 k s r :
+  x0 * x0 + x1 * x1 + x2 * x2 = 1 -> s < r ->
+  cmul (r * cos (k * r), - (r * sin (k * r)))
+       (helmholtz_single_layer_regular (r * x0) (r * x1) (r * x2) (s * x0) (s * x1) (s * x2)
+                                       nx0 nx1 nx2 ny0 ny1 ny2 k 0)
+  = (r / (r - s) * helmholtz_far_field_single_layer_re x0 x1 x2 (s * x0) (s * x1) (s * x2) nx0 nx1 nx2 ny0 ny1 ny2 k 0,
+     r / (r - s) * helmholtz_far_field_single_layer_im x0 x1 x2 (s * x0) (s * x1) (s * x2) nx0 nx1 nx2 ny0 ny1 ny2 k 0).
+Proof.
+  intros Hn Hs.
+  unfold cmul, helmholtz_single_layer_regular; cbn [fst snd].
+  unfold helmholtz_single_layer_regular_re, helmholtz_single_layer_regular_im,
+         helmholtz_far_field_single_layer_re, helmholtz_far_field_single_layer_im, M_INV_4PI.
+  assert (E : 0 + (s * x0 - r * x0) * (s * x0 - r * x0) + (s * x1 - r * x1) * (s * x1 - r * x1)
+                + (s * x2 - r * x2) * (s * x2 - r * x2) = (r - s) * (r - s)).
+  { transitivity ((r - s) * (r - s) * (x0 * x0 + x1 * x1 + x2 * x2)); [ring|rewrite Hn; ring]. }
+  rewrite E. replace (sqrt ((r - s) * (r - s))) with (r - s) by (symmetry; apply sqrt_square; lra).
+  destruct (Req_EM_T 0 0) as [_|N]; [|exfalso; apply N; reflexivity].
+  replace (- k * (0 + x0 * (s * x0) + x1 * (s * x1) + x2 * (s * x2))) with (- (k * s))
+    by (transitivity (- k * s * (x0 * x0 + x1 * x1 + x2 * x2)); [rewrite Hn; ring|ring]).
+  replace (k * (r - s)) with (k * r - k * s) by ring.
+  rewrite cos_neg, sin_neg, cos_minus, sin_minus.
+  pose proof (sin2_cos2 (k * r)) as P. unfold Rsqr in P.
+  assert (r - s <> 0) by lra. pose proof PI_neq0.
+  set (c := cos (k * r)) in *. set (n := sin (k * r)) in *. set (cs := cos (k * s)). set (ns := sin (k * s)).
+  f_equal.
+  - transitivity (r * (cs * (c * c + n * n)) * (1 / (4 * PI)) / (r - s)); [field; auto|].
+    replace (c * c + n * n) with 1 by lra. field; auto.
+  - transitivity (- (r * (ns * (c * c + n * n)) * (1 / (4 * PI)) / (r - s))); [field; auto|].
+    replace (c * c + n * n) with 1 by lra. field; auto.
+Qed.
+
+(* On a tree whose far-field kernels do read the imaginary part (flag true) the translation law must hold for every
+   complex k; on the pinned tree the hypothesis is false. *)
+Lemma far_field_translation_complex_if_supported :
+  far_field_kernels_use_imag = true ->
+  forall x0 x1 x2 y0 y1 y2 t0 t1 t2 nx0 nx1 nx2 ny0 ny1 ny2 kr ki,
+  helmholtz_far_field_single_layer x0 x1 x2 (y0 + t0) (y1 + t1) (y2 + t2) nx0 nx1 nx2 ny0 ny1 ny2 kr ki
+    = cmul (cexp_mik kr ki (dot3 x0 x1 x2 t0 t1 t2))
+           (helmholtz_far_field_single_layer x0 x1 x2 y0 y1 y2 nx0 nx1 nx2 ny0 ny1 ny2 kr ki) /\
+  helmholtz_far_field_double_layer x0 x1 x2 (y0 + t0) (y1 + t1) (y2 + t2) nx0 nx1 nx2 ny0 ny1 ny2 kr ki
+    = cmul (cexp_mik kr ki (dot3 x0 x1 x2 t0 t1 t2))
+           (helmholtz_far_field_double_layer x0 x1 x2 y0 y1 y2 nx0 nx1 nx2 ny0 ny1 ny2 kr ki).
+Proof.
+  intros Hflag.
+  first
+    [ vm_compute in Hflag; discriminate Hflag
+    | intros x0 x1 x2 y0 y1 y2 t0 t1 t2 nx0 nx1 nx2 ny0 ny1 ny2 kr ki;
+      unfold helmholtz_far_field_single_layer, helmholtz_far_field_double_layer, cmul, cexp_mik, dot3; cbn [fst snd];
+      unfold helmholtz_far_field_single_layer_re, helmholtz_far_field_single_layer_im,
+             helmholtz_far_field_double_layer_re, helmholtz_far_field_double_layer_im, M_INV_4PI;
+      set (sy := x0 * y0 + x1 * y1 + x2 * y2); set (st := x0 * t0 + x1 * t1 + x2 * t2);
+      replace (0 + x0 * (y0 + t0) + x1 * (y1 + t1) + x2 * (y2 + t2)) with (sy + st) by (unfold sy, st; ring);
+      replace (0 + x0 * y0 + x1 * y1 + x2 * y2) with sy by (unfold sy; ring);
+      replace (- kr * (sy + st)) with (- (kr * sy + kr * st)) by ring;
+      replace (- kr * sy) with (- (kr * sy)) by ring;
+      replace (ki * (sy + st)) with (ki * sy + ki * st) by ring;
+      rewrite ?cos_neg, ?sin_neg, ?cos_plus, ?sin_plus, ?exp_plus;
+      pose proof pi4_neq0; pose proof PI_neq0;
+      destruct (Req_EM_T ki 0) as [e|e];
+      [ subst ki; rewrite ?Rmult_0_l, ?exp_0 | ];
+      split; f_equal; field; auto ].
+Qed.
+
+(* ---- which kernel each potential / far-field factory evaluates (table gen/Dispatch.v) ---- *)
+From BVgen Require Import Dispatch.
+From BV Require Import Kernels.DispatchModel.
+Open Scope string_scope.
+
+Definition expected_kernel_type (f : factory) : string :=
+  if String.eqb (f_package f) "far_field" then "helmholtz_far_field_" ++ f_name f
+  else f_module f ++ "_" ++ f_name f.
+
+Definition expected_options (f : factory) : list wexpr :=
+  if String.eqb (f_module f) "laplace" then nil
+  else if String.eqb (f_module f) "modified_helmholtz" then (WSame :: nil)
+  else (WReal :: WImag :: nil).
+
+Definition potential_like (f : factory) : bool :=
+  String.eqb (f_package f) "potential" || String.eqb (f_package f) "far_field".
+
+Lemma potential_factories_kernel_types :
+  List.Forall (fun f => f_kernel_type f = expected_kernel_type f /\ f_assembly_type f = "default_scalar" /\
+                   f_options f = expected_options f /\
+                   f_is_complex f = negb (String.eqb (f_module f) "laplace" || String.eqb (f_module f) "modified_helmholtz"))
+         (List.filter potential_like factories).
+Proof.
+  cbv [filter factories potential_like f_package String.eqb Ascii.eqb Bool.eqb orb].
+  repeat (apply List.Forall_cons; [repeat split; reflexivity|]). apply List.Forall_nil.
+Qed.
+
+Lemma potential_factories_count : List.length (List.filter potential_like factories) = 8%nat.
+Proof. reflexivity. Qed.
